@@ -8,15 +8,19 @@ package c03
 import (
 	"fmt"
 	"math/bits"
+	"runtime"
 	"sort"
 	"strconv"
 	"strings"
+	"sync/atomic"
 	"testing"
+	"time"
 
 	"gopkg.in/typ.v4/maps"
 	"gopkg.in/typ.v4/sets"
 	"gopkg.in/typ.v4/sync2"
 	"pgregory.net/rapid"
+	"verifharness/internal/gstate"
 	"verifharness/internal/pbt"
 )
 
@@ -47,7 +51,7 @@ type Case struct {
 	Elem  int     `json:"elem"` // element type, index into elemNames (types_test.go): 0 int (one member 0), 1 plain strings, 2.. see there
 	A     Operand `json:"a"`
 	B     Operand `json:"b"`
-	Alias bool    `json:"alias"` // B is the very same object as A (honoured for union/intersect/setdiff/symdiff/cartesian only)
+	Alias bool    `json:"alias"` // B is the very same object as A (honoured for union/intersect/setdiff/symdiff/cartesian/addset/removeset)
 	Op    string  `json:"op"`    // union intersect setdiff symdiff addset removeset clone cartesian cartesian2 nested range string
 	K     int     `json:"k"`     // for op "range": stop at the k-th call (0 = never)
 	Post  []POp   `json:"post"`
@@ -548,9 +552,44 @@ func (r runner[T]) nested(a, b *operand[T], what string) string {
 	return ""
 }
 
+// mayHang runs f; with guard set it runs it in a goroutine of its own and reports the wait state if that goroutine
+// is seen blocked in a sync primitive (twice, 2ms apart) - the case has no other goroutine, so nothing can wake it.
+func mayHang(guard bool, f func()) string {
+	if !guard {
+		f()
+		return ""
+	}
+	var gid atomic.Pointer[string]
+	var returned atomic.Bool
+	var pan any
+	go func() {
+		id := gstate.GoID()
+		gid.Store(&id)
+		defer func() {
+			pan = recover()
+			returned.Store(true)
+		}()
+		f()
+	}()
+	for gid.Load() == nil {
+		runtime.Gosched()
+	}
+	fin, st, timedOut := gstate.WaitDoneOrBlockedIn(*gid.Load(), gstate.SyncBlocked, returned.Load, 20*time.Second)
+	if timedOut {
+		return "?"
+	}
+	if !fin {
+		return st
+	}
+	if pan != nil {
+		panic(pan)
+	}
+	return ""
+}
+
 func aliasable(op string) bool {
 	switch op {
-	case "union", "intersect", "setdiff", "symdiff", "cartesian", "nested":
+	case "union", "intersect", "setdiff", "symdiff", "cartesian", "nested", "addset", "removeset":
 		return true
 	}
 	return false
@@ -676,13 +715,25 @@ func run[T comparable](c Case, k kit[T]) pbt.Outcome {
 		msg = binary("Clone", ma, func(sets.Set[T]) sets.Set[T] { return a.s.Clone() })
 	case "addset":
 		want := bits.OnesCount32(mb &^ ma)
-		if got := a.s.AddSet(b.s); got != want {
+		var got int
+		if hung := mayHang(alias, func() { got = a.s.AddSet(b.s) }); hung == "?" {
+			return pbt.Outcome{Inconclusive: "A.AddSet(A) neither returned nor was seen blocked within 20s"}
+		} else if hung != "" {
+			return pbt.Fail("A.AddSet(A) never returns: its goroutine is blocked in %q with nobody else around; %s", hung, what)
+		}
+		if got != want {
 			msg = fmt.Sprintf("A.AddSet(B) returned %d, want %d = |B\\A|; %s", got, want, what)
 		}
 		*a.m = ma | mb
 	case "removeset":
 		want := bits.OnesCount32(mb & ma)
-		if got := a.s.RemoveSet(b.s); got != want {
+		var got int
+		if hung := mayHang(alias, func() { got = a.s.RemoveSet(b.s) }); hung == "?" {
+			return pbt.Outcome{Inconclusive: "A.RemoveSet(A) neither returned nor was seen blocked within 20s"}
+		} else if hung != "" {
+			return pbt.Fail("A.RemoveSet(A) never returns: its goroutine is blocked in %q with nobody else around; %s", hung, what)
+		}
+		if got != want {
 			msg = fmt.Sprintf("A.RemoveSet(B) returned %d, want %d = |A∩B|; %s", got, want, what)
 		}
 		*a.m = ma &^ mb
@@ -959,7 +1010,7 @@ var specEnum = pbt.Register(&pbt.Spec[Case]{
 	Property: "C03", Name: "C03.enum",
 	Rule: "exhaustive: every pair (A,B) of subsets of {0,1,2} (thorough: {0,1,2,3}) x every pair of build recipes {maps.Set by Adds; sync2.Set: " +
 		"all-in-dirty, promoted, clean+nil entries, expunged entries, unexpunged-then-deleted, promoted-holding-nil} x {Union, Intersect, SetDiff, " +
-		"SymDiff, AddSet, RemoveSet, CartesianProduct}; plus same-object operands for the pure operations and Clone/Range(k=0..3)/String on every " +
+		"SymDiff, AddSet, RemoveSet, CartesianProduct}; plus same-object operands (A.Union(A) ... A.AddSet(A), A.RemoveSet(A): these two run in a goroutine of their own, seen blocked = never returns) and Clone/Range(k=0..3)/String on every " +
 		"(subset, recipe); int members; " + rule,
 	Enum: func(shard, shards int, tier string, yield func(Case) bool) {
 		n := 3
@@ -991,7 +1042,7 @@ var specEnum = pbt.Register(&pbt.Spec[Case]{
 						return
 					}
 				}
-				for _, op := range []string{"union", "intersect", "setdiff", "symdiff", "cartesian"} {
+				for _, op := range []string{"union", "intersect", "setdiff", "symdiff", "cartesian", "addset", "removeset"} {
 					if !emit(Case{A: a, Alias: true, Op: op}) {
 						return
 					}
